@@ -63,7 +63,9 @@ func c11Graph() *hx.Graph {
 }
 
 // the variables every operation of a C11 document declares
-var c11VarDefs = "$i: Int, $j: Int = 5, $s: String, $sd: String = \"sdef\", $b: Boolean = false, $c: Boolean!, $in: In0, $l: [Int], $e: E0, $x: Float"
+var c11VarDefs = "$i: Int, $j: Int = 5, $s: String, $sd: String = \"sdef\", $b: Boolean = false, $c: Boolean!, $in: In0, $l: [Int], $e: E0, $x: Float," +
+	// defaults that are containers holding containers: filling them in needs coercion work two levels down
+	" $ind: In0 = {r: 1, n: {y: true}, l: [1, 2]}, $ml: [In1] = [{y: false}, {y: true, x: 1}], $ld: [Int] = [3, 4]"
 
 type c11Step struct {
 	Op   string  `json:"op"`
@@ -79,6 +81,17 @@ type c11Case struct {
 type c11gen struct {
 	t    *rapid.T
 	nKey int
+	// defect: one selection of the document gets an argument its field does not declare (the
+	// document is not valid then; a kept parsed copy still has to answer like a fresh one)
+	defect, defectDone bool
+}
+
+func (g *c11gen) maybeDefect(args []string, label string) []string {
+	if g.defect && !g.defectDone && rapid.IntRange(0, 2).Draw(g.t, label+"defectHere") == 0 {
+		g.defectDone = true
+		return append(args, "zzz: 1")
+	}
+	return args
 }
 
 func (g *c11gen) intV(label string) string {
@@ -103,8 +116,11 @@ func (g *c11gen) in1(label string) string {
 }
 
 func (g *c11gen) in0(label string) string {
-	if rapid.IntRange(0, 4).Draw(g.t, label+"var") == 0 {
+	switch rapid.IntRange(0, 7).Draw(g.t, label+"var") {
+	case 0:
 		return "$in"
+	case 1, 2:
+		return "$ind"
 	}
 	parts := []string{"r: " + g.intV(label+"r")}
 	if rapid.Bool().Draw(g.t, label+"hi") {
@@ -126,8 +142,13 @@ func (g *c11gen) in0(label string) string {
 }
 
 func (g *c11gen) intList(label string, allowVar bool) string {
-	if allowVar && rapid.IntRange(0, 3).Draw(g.t, label+"var") == 0 {
-		return "$l"
+	if allowVar {
+		switch rapid.IntRange(0, 5).Draw(g.t, label+"var") {
+		case 0:
+			return "$l"
+		case 1:
+			return "$ld"
+		}
 	}
 	n := rapid.IntRange(0, 3).Draw(g.t, label+"n")
 	var es []string
@@ -158,7 +179,10 @@ func (g *c11gen) fieldF(label string) string {
 			es = append(es, g.in1(fmt.Sprintf("%sm%d", label, i)))
 		}
 		args = append(args, "m: ["+strings.Join(es, ", ")+"]")
+	} else if rapid.IntRange(0, 3).Draw(g.t, label+"mv") == 0 {
+		args = append(args, "m: $ml")
 	}
+	args = g.maybeDefect(args, label)
 	g.nKey++
 	s := fmt.Sprintf("k%d: f", g.nKey)
 	if len(args) > 0 {
@@ -186,6 +210,7 @@ func (g *c11gen) fieldG(label string) string {
 	if rapid.IntRange(0, 2).Draw(g.t, label+"e") == 0 {
 		args = append(args, "e: "+rapid.SampledFrom([]string{"RED", "$e"}).Draw(g.t, label+"ev"))
 	}
+	args = g.maybeDefect(args, label)
 	g.nKey++
 	s := fmt.Sprintf("k%d: g", g.nKey)
 	if len(args) > 0 {
@@ -293,11 +318,14 @@ var c11VarPool = map[string][]hx.Val{
 	"l": {hx.List(hx.I64(1), hx.I64(2)), hx.List(), hx.List(hx.I64(5), hx.Nil()), hx.List(hx.F64(3))},
 	"e": {hx.Sym("RED"), hx.Sym("GREEN"), hx.Sym("BOGUS")},
 	"x": {hx.F64(2.5), hx.F64(-1), hx.I64(3)},
+	"ind": {hx.Map(hx.KV{Key: "r", V: hx.I64(9)}, hx.KV{Key: "n", V: hx.Map(hx.KV{Key: "y", V: hx.Bool(false)}, hx.KV{Key: "x", V: hx.F64(0.5)})})},
+	"ml":  {hx.List(hx.Map(hx.KV{Key: "y", V: hx.Bool(true)})), hx.List()},
+	"ld":  {hx.List(hx.I64(8))},
 }
-var c11VarNames = []string{"i", "j", "s", "sd", "b", "c", "in", "l", "e", "x"}
+var c11VarNames = []string{"i", "j", "s", "sd", "b", "c", "in", "l", "e", "x", "ind", "ml", "ld"}
 
 func genCaseC11(t *rapid.T) *c11Case {
-	g := &c11gen{t: t}
+	g := &c11gen{t: t, defect: rapid.IntRange(0, 5).Draw(t, "defectiveDocument") == 0}
 	c := &c11Case{Strat: rapid.SampledFrom([]string{"R", "A"}).Draw(t, "strategy")}
 	nFr := rapid.IntRange(0, 3).Draw(t, "nFrags")
 	var frags []c11Frag
